@@ -152,6 +152,7 @@ Fixpoint jll_loop (fuel : nat) (st : jst) (bs : list Z) : M jhdr :=
         _ <- jll_scan_allocs (fst x) (snd x) ;;
         ret (j_w st, j_h st, j_c st, j_prec st)
       else if m =? 217 then err
+      else if is_sof m then err   (* F47: frame header of a process this decoder does not implement *)
       else if has_length m then x <- read_segment r ;; jll_loop k st (snd x)
       else jll_loop k st r
     | _ => err
@@ -238,6 +239,7 @@ Fixpoint sv1_loop (fuel : nat) (st : jst) (bs : list Z) : M jhdr :=
       else if m =? 217 then
         _ <- sv1_out_alloc st ;;
         ret (j_w st, j_h st, zlen (j_ids st), j_prec st)
+      else if is_sof m then err   (* F47: frame header of a process this decoder does not implement *)
       else if has_length m then x <- read_segment r ;; sv1_loop k st (snd x)
       else sv1_loop k st r
     | _ => err
